@@ -1,8 +1,7 @@
 //! Shared world-building helpers: instruments, engine state, order / account message builders.
 
 use barter::engine::state::{
-    EngineState, global::DefaultGlobalData, instrument::data::DefaultInstrumentMarketData,
-    trading::TradingState,
+    EngineState, instrument::data::DefaultInstrumentMarketData, trading::TradingState,
 };
 use barter_data::{
     books::Level,
@@ -36,14 +35,37 @@ use barter_integration::snapshot::Snapshot;
 use chrono::{DateTime, TimeZone, Utc};
 use rust_decimal::Decimal;
 
-pub type St = EngineState<DefaultGlobalData, DefaultInstrumentMarketData>;
+/// Global data of every simulated engine: counts what the engine state was updated with, so that
+/// "keeps updating its state" is observable for the user-defined global data too (the library's
+/// `DefaultGlobalData` ignores every event).
+#[derive(Debug, Clone, Default, PartialEq, serde::Serialize, serde::Deserialize)]
+pub struct CountGlobal {
+    pub market: u64,
+    pub account: u64,
+}
+impl<'a> barter::engine::Processor<&'a MarketEvent<InstrumentIndex, DataKind>> for CountGlobal {
+    type Audit = ();
+    fn process(&mut self, _: &'a MarketEvent<InstrumentIndex, DataKind>) {
+        self.market += 1;
+    }
+}
+impl<'a> barter::engine::Processor<&'a AccountEvent> for CountGlobal {
+    type Audit = ();
+    fn process(&mut self, _: &'a AccountEvent) {
+        self.account += 1;
+    }
+}
+
+pub type St = EngineState<CountGlobal, DefaultInstrumentMarketData>;
 
 /// Exchanges used by the simulators, in `ExchangeId` order (which is index order).
+/// Their names sort differently (binance_spot, bithumb, bitvavo, mock): nothing may confuse the two
+/// orders.
 pub const EXS: [ExchangeId; 4] = [
+    ExchangeId::Mock,
     ExchangeId::BinanceSpot,
-    ExchangeId::Coinbase,
-    ExchangeId::Kraken,
-    ExchangeId::Okx,
+    ExchangeId::Bitvavo,
+    ExchangeId::Bithumb,
 ];
 
 thread_local! {
@@ -151,7 +173,7 @@ pub fn build_state(
     trading: TradingState,
     balances: &[(ExchangeId, &str, i64)],
 ) -> St {
-    EngineState::builder(instruments, DefaultGlobalData, DefaultInstrumentMarketData::default)
+    EngineState::builder(instruments, CountGlobal::default(), DefaultInstrumentMarketData::default)
         .time_engine_start(ts(0))
         .trading_state(trading)
         .balances(balances.iter().map(|(ex, sym, total)| {
